@@ -510,6 +510,14 @@ def near_misses(p, limits=()):
         ws = wsb if isb else wsb.decode("latin-1")
         for where, i in (("start", 0), ("mid", n // 2), ("end", n)):
             put(f"ws{wsb[0]:02x}_{where}@{i}", p[:i] + ws + p[i:])
+    if isb:
+        # keyed constructions (HMAC: sha1_crypt, pbkdf2, scram ...) replace a key LONGER than the digest's block by its
+        # digest; a password of exactly one block is used as it is, so its digest is just another (wrong) password
+        import hashlib
+
+        for alg, block in (("md5", 64), ("sha1", 64), ("sha256", 64), ("sha512", 128)):
+            if n == block:
+                put(f"digest_of_password:{alg}", hashlib.new(alg, p).digest())
     put("drop_last", p[:-1])
     put("append_x", p + (b"x" if isb else "x"))
     put("append_blank", p + (b" " if isb else " "))
